@@ -318,7 +318,7 @@ def finish(ctx, level, rule, assumptions, extra_cov=None, min_distinct=2, post=N
         cov.update(extra_cov)
     ev = dict(property_id=ctx.pid, tier=ctx.tier, seed=ctx.seed, level=level, coverage=cov,
               assumptions=assumptions, wall_s=round(time.time() - ctx.t0, 1), violations=n_new)
-    if not ctx.replay:
+    if not ctx.replay and not os.environ.get("VERIF_NO_EVIDENCE"):
         os.makedirs(os.path.join(VERIF, "evidence"), exist_ok=True)
         json.dump(ev, open(os.path.join(VERIF, "evidence", ctx.pid + ".json"), "w"), indent=1, default=str)
 
